@@ -338,6 +338,13 @@ def desugar_map_or_else(text):
         n += 1
 
 
+def question_marks_outside_closures(body):
+    from rsrc import find_closures
+    mb = mask(body)
+    spans = [(c[0], c[3]) for c in find_closures(mb)]
+    return any(ch == '?' and not any(a <= i < b for a, b in spans) for i, ch in enumerate(mb))
+
+
 def desugar_option_map(text, mode='asref'):
     """X.as_ref().map(|p| B)  ->  (match X.as_ref() { None => None, Some(p) => Some(B) })  — definition of Option::map;
     applied only when the closure body mentions `self` (Verus rejects closures capturing `&mut self`).
@@ -368,6 +375,11 @@ def desugar_option_map(text, mode='asref'):
         is_and_then = 'and_then' in m[k:op]
         param = args[s1 + 1:p1].strip()
         body = args[b1:e1].strip()
+        # a `?` in the closure body returns from the closure; in the `match` it returns from the function.  The two
+        # agree exactly when the closure's Err is propagated unchanged: `.map(|p| { ..? .. }).transpose()?`
+        inner_q = question_marks_outside_closures(body)
+        if inner_q and not (mode != 'res' and not is_and_then and re.match(r'\s*\.transpose\(\)\?', m[cl + 1:])):
+            raise UnitError('Option::map desugaring: closure body uses `?` but is not followed by .transpose()?')
         if mode == 'res':
             new = '(match %s { Err(e) => Err(e), Ok(%s) => %s })' % (recv, param, body if is_and_then else 'Ok(%s)' % body)
         else:
